@@ -2,17 +2,22 @@
    PARTIAL.  The model makes every panicking site of the modelled bookkeeping
    core explicit (Base/Outcome.v Site); the correspondence check shows that
    the model under rust_decimal rounding predicts every panic of the real core
-   on generated in-range inputs.  Proved: under exact arithmetic the ONLY
-   panic of the bookkeeping core, for any history of rows that parse, is the
-   effective-cent one (C05_exact_panics_only_at_effective_cent) - so every
-   other panic of the real code is an effect of rust_decimal rounding or
-   overflow; and which sites can not be reached under any arithmetic.
+   on generated in-range inputs.  Proved: under exact arithmetic the
+   bookkeeping core does NOT panic, for any history of rows that parse
+   (C05_exact_never_panics) - so every panic of the real code is an effect of
+   rust_decimal rounding or overflow; and which sites can not be reached under
+   any arithmetic.  The effective-cent panic (a tiny denied loss rounding to
+   0.00 and being unwrapped as a NegDecimal, math.rs:93) was a fourth class
+   until the fix "treat a superficial loss that rounds to zero effective cents
+   as no superficial loss": the site can no longer fail, in any arithmetic
+   (C05_effective_cent_site_cannot_panic), and the old witness is accepted
+   (C05_effective_cent_witness_accepted).
    The property itself is REFUTED for the faithful model (three classes of
    in-range inputs panic, see the witnesses below and known-findings.json);
    "whatever the bytes" for the third-party layers is fuzzing, not proof. *)
 From Coq Require Import List NArith ZArith QArith Qcanon Bool.
 From ACB Require Import Base.Outcome Base.QcExtra Base.Fit Base.Arith Model.Tx Model.Ledger Model.Sfl
-     Model.DeltaList Proofs.C04Inv Proofs.C05Sites Proofs.C04Reject Proofs.C05NoPanic Proofs.C05Dec Proofs.FitProps.
+     Model.DeltaList Proofs.C04Inv Proofs.C05Sites Proofs.C04Reject Proofs.C05NoPanic Proofs.C05Dec Proofs.FitProps Proofs.EffCent.
 Import ListNotations.
 
 (* Under exact arithmetic neither assert_eq! of set_latest_post_status can
@@ -55,22 +60,48 @@ Print Assumptions C05_arithmetics_sane.
    non-negative quantities as Tx::try_from guarantees: valid_tx; the
    registered flag of an affiliate a function of its id: row_ok'), whatever
    the length, the affiliates, the order or the opening position, the ledger
-   can panic at ONE site only: c_maybe_round_to_effective_cent's unwrap
-   (math.rs:93; first witness of C05_refuted).  All 25 other panic sites of the
-   modelled core (constrained-decimal constructors, assert_eq!, unwraps of
-   missing map entries, division by zero) are unreachable without rounding. *)
-Theorem C05_exact_panics_only_at_effective_cent : forall regof, regof default_id = false ->
+   can not panic.  All 26 panic sites of the modelled core
+   (constrained-decimal constructors, assert_eq!, unwraps of missing map
+   entries, division by zero) are unreachable without rounding.  (Before the
+   fix of the effective-cent panic this read "can panic at ONE site only:
+   c_maybe_round_to_effective_cent's unwrap".) *)
+Theorem C05_exact_never_panics : forall regof, regof default_id = false ->
   forall init txs ds p,
   run exact init txs = (ds, Some (SPanic p)) ->
   init_ok2 init -> Forall (row_ok' regof) txs -> Forall vtx txs ->
-  p = PanicConstraint Site.eff_cent.
-Proof. exact C05NoPanic.run_panic_only_eff_cent. Qed.
-Check C05_exact_panics_only_at_effective_cent : forall regof, regof default_id = false ->
+  False.
+Proof. exact C05NoPanic.run_exact_never_panics. Qed.
+Check C05_exact_never_panics : forall regof, regof default_id = false ->
   forall init txs ds p,
   run exact init txs = (ds, Some (SPanic p)) ->
   init_ok2 init -> Forall (row_ok' regof) txs -> Forall vtx txs ->
-  p = PanicConstraint Site.eff_cent.
-Print Assumptions C05_exact_panics_only_at_effective_cent.
+  False.
+Print Assumptions C05_exact_never_panics.
+
+(* The effective-cent site after the fix: maybe_round_to_effective_cent of a
+   non-positive value (the loss times the ratio is negative) is non-positive
+   in EVERY arithmetic - it returns its argument or the argument rounded to
+   the cent, half away from zero - so LessEqualZeroDecimal::try_from(..)
+   .unwrap() succeeds. *)
+Theorem C05_effective_cent_site_cannot_panic : forall (A : arith) d c,
+  (d <= 0)%Qc -> eff_cent A d = Ok c -> lez_unwrap Site.eff_cent c = Ok c /\ (c <= 0)%Qc.
+Proof. intros A d c Hd H. split; [exact (EffCent.eff_cent_site_ok A d c Hd H) | exact (EffCent.eff_cent_nonpos A d c Hd H)]. Qed.
+Check C05_effective_cent_site_cannot_panic : forall (A : arith) d c,
+  (d <= 0)%Qc -> eff_cent A d = Ok c -> lez_unwrap Site.eff_cent c = Ok c /\ (c <= 0)%Qc.
+Print Assumptions C05_effective_cent_site_cannot_panic.
+
+(* ... and whole runs: no run, in any sign-preserving arithmetic (exact and
+   rust_decimal rounding included), ends in a panic of that site *)
+Theorem C05_no_run_panics_at_effective_cent : forall (A : arith), C05Dec.sign_arith A ->
+  forall init txs ds p,
+  run A init txs = (ds, Some (SPanic p)) -> init_ok2 init -> Forall vtx txs ->
+  p <> PanicConstraint Site.eff_cent.
+Proof. intros A HA init txs ds p H Hi HV. exact (C05Dec.pclass_not_eff_cent p (C05Dec.run_panic_classes A HA init txs ds p H Hi HV)). Qed.
+Check C05_no_run_panics_at_effective_cent : forall (A : arith), C05Dec.sign_arith A ->
+  forall init txs ds p,
+  run A init txs = (ds, Some (SPanic p)) -> init_ok2 init -> Forall vtx txs ->
+  p <> PanicConstraint Site.eff_cent.
+Print Assumptions C05_no_run_panics_at_effective_cent.
 
 (* ---- refutation: in-range inputs on which the faithful model panics ---- *)
 Local Open Scope Z_scope.
@@ -87,7 +118,9 @@ Definition action_in_range (a : action) : bool :=
   | Split p q_ _ => in_range p && in_range q_
   end.
 
-(* (1) a tiny superficial loss rounds to 0.00 cents: math.rs:93, also under exact arithmetic *)
+(* (1) a tiny superficial loss rounds to 0.00 cents: panicked at math.rs:93 (also
+   under exact arithmetic) until the fix; now a regression case, see
+   C05_effective_cent_witness_accepted *)
 Definition w_eff : list tx := [
   mk 100 (Buy (q 2 1) (q 10000000001 10000000000) (q 0 1) (q 1 1) (q 1 1));
   mk 110 (Sell (q 1 2) (q 1 1) (q 0 1) (q 1 1) (q 1 1) None)].
@@ -100,32 +133,55 @@ Definition w_split : list tx := [
   mk 160 (Split (q 1 1) (q 3 1) false)].
 
 Theorem C05_refuted :
-  forallb (fun t => valid_tx t && action_in_range (t_act t)) (w_eff ++ w_over ++ w_split) = true /\
-  snd (run dec None w_eff) = Some (SPanic (PanicConstraint Site.eff_cent)) /\
-  snd (run exact None w_eff) = Some (SPanic (PanicConstraint Site.eff_cent)) /\
+  forallb (fun t => valid_tx t && action_in_range (t_act t)) (w_over ++ w_split) = true /\
   snd (run dec None w_over) = Some (SPanic PanicOverflow) /\
   snd (run exact None w_over) = None /\
   snd (run dec None w_split) = Some (SPanic (PanicAssert Site.set_latest_all)) /\
   snd (run exact None w_split) = None.
 Proof. vm_compute. repeat split. Qed.
 Check C05_refuted :
-  forallb (fun t => valid_tx t && action_in_range (t_act t)) (w_eff ++ w_over ++ w_split) = true /\
-  snd (run dec None w_eff) = Some (SPanic (PanicConstraint Site.eff_cent)) /\
-  snd (run exact None w_eff) = Some (SPanic (PanicConstraint Site.eff_cent)) /\
+  forallb (fun t => valid_tx t && action_in_range (t_act t)) (w_over ++ w_split) = true /\
   snd (run dec None w_over) = Some (SPanic PanicOverflow) /\
   snd (run exact None w_over) = None /\
   snd (run dec None w_split) = Some (SPanic (PanicAssert Site.set_latest_all)) /\
   snd (run exact None w_split) = None.
 Print Assumptions C05_refuted.
 
-(* non-vacuity of C05_exact_panics_only_at_effective_cent: the first witness
-   meets its hypotheses and does panic (there) *)
+(* The old effective-cent witness is now accepted, under exact arithmetic and
+   under rounding: two rows are reported, the sale carries no superficial
+   loss, no adjustment row is generated, the whole loss
+   (-0.00000000005) is the capital gain. *)
+Definition obs_eff (A : arith) :=
+  (snd (run A None w_eff),
+   map (fun d => (is_none (d_sfl d), option_map (fun g => (Qnum (this g), Qden (this g))) (d_gain d)))
+       (fst (run A None w_eff))).
+Theorem C05_effective_cent_witness_accepted :
+  forallb (fun t => valid_tx t && action_in_range (t_act t)) w_eff = true /\
+  obs_eff exact = (None, [(true, None); (true, Some (-1, 20000000000%positive))]) /\
+  obs_eff dec = (None, [(true, None); (true, Some (-1, 20000000000%positive))]).
+Proof. vm_compute. repeat split. Qed.
+Check C05_effective_cent_witness_accepted :
+  forallb (fun t => valid_tx t && action_in_range (t_act t)) w_eff = true /\
+  obs_eff exact = (None, [(true, None); (true, Some (-1, 20000000000%positive))]) /\
+  obs_eff dec = (None, [(true, None); (true, Some (-1, 20000000000%positive))]).
+Print Assumptions C05_effective_cent_witness_accepted.
+
+(* non-vacuity of C05_exact_never_panics and of
+   C05_effective_cent_site_cannot_panic: the old witness meets the hypotheses
+   (and is accepted); the value its sale sends through the site is
+   -0.00000000005 (the loss times the ratio 1), which the effective-cent step
+   turns into 0 - accepted by the LessEqualZeroDecimal conversion, refused by the
+   NegDecimal one of the unrepaired code *)
 Example C05_exact_hypotheses_hold :
   init_ok2 None /\ Forall (row_ok' (fun _ => false)) w_eff /\ Forall vtx w_eff /\
-  snd (run exact None w_eff) = Some (SPanic (PanicConstraint Site.eff_cent)).
+  snd (run exact None w_eff) = None /\
+  match eff_cent dec (q (-1) 20000000000) with Ok c => Qceqb c 0 | _ => false end = true /\
+  match eff_cent exact (q (-1) 20000000000) with Ok c => Qceqb c 0 | _ => false end = true /\
+  is_ok (lez_unwrap Site.eff_cent 0%Qc) = true /\
+  neg_unwrap Site.eff_cent 0%Qc = Panic (PanicConstraint Site.eff_cent).
 Proof.
   split; [intros i E; discriminate E|]. split; [repeat constructor|].
-  split; [repeat constructor | vm_compute; reflexivity].
+  split; [repeat constructor | vm_compute; repeat split].
 Qed.
 
 
@@ -134,28 +190,29 @@ Qed.
    overflow and keep a non-negative result non-negative: [sign_arith]), every
    history of rows that parse (positive / non-negative quantities: vtx), any
    length, affiliates, order, opening position: a panic of the bookkeeping core
-   is an operator overflow, the effective-cent unwrap (math.rs:93), the
+   is an operator overflow, the
    all-affiliate assert_eq! of set_latest_post_status (rounding residue), or a
    strictly positive / negative constrained quantity that ROUNDED TO ZERO at
    one of eight sites (PosDecimal * PosDecimal, PosDecimal / PosDecimal, the
    NegDecimal products and quotient, the two ratio conversions,
    SflaTxSpecifics::total_amount).  All other 17 panic sites of the modelled
    core (GreaterEqualZero constructors, division by zero, the registered /
-   cost-base assertions, missing map entries, no-buyers assertion, ...) are
-   unreachable under rounding too.  No hypothesis about affiliates' flags is
+   cost-base assertions, missing map entries, no-buyers assertion, and since
+   the fix the effective-cent conversion, ...) are unreachable under rounding
+   too.  No hypothesis about affiliates' flags is
    needed: the sanity check of the row itself establishes what the assertions
    test. *)
 Theorem C05_rounded_panic_classes : forall init txs ds p,
   run dec init txs = (ds, Some (SPanic p)) ->
   init_ok2 init -> Forall vtx txs ->
-  p = PanicOverflow \/ p = PanicConstraint Site.eff_cent \/ p = PanicAssert Site.set_latest_all \/
+  p = PanicOverflow \/ p = PanicAssert Site.set_latest_all \/
   exists s, In s [Site.pos_mul; Site.pos_div; Site.neg_mul; Site.neg_div; Site.neg_mul_pos;
                   Site.ratio_to_pos; Site.af_ratio_pos; Site.sfla_total] /\ p = PanicConstraint s.
 Proof. exact (C05Dec.run_panic_classes dec C05Dec.dec_sign). Qed.
 Check C05_rounded_panic_classes : forall init txs ds p,
   run dec init txs = (ds, Some (SPanic p)) ->
   init_ok2 init -> Forall vtx txs ->
-  p = PanicOverflow \/ p = PanicConstraint Site.eff_cent \/ p = PanicAssert Site.set_latest_all \/
+  p = PanicOverflow \/ p = PanicAssert Site.set_latest_all \/
   exists s, In s [Site.pos_mul; Site.pos_div; Site.neg_mul; Site.neg_div; Site.neg_mul_pos;
                   Site.ratio_to_pos; Site.af_ratio_pos; Site.sfla_total] /\ p = PanicConstraint s.
 Print Assumptions C05_rounded_panic_classes.
@@ -205,11 +262,10 @@ Check C05_refuted_underflow :
   snd (run exact None w_under) = None.
 Print Assumptions C05_refuted_underflow.
 
-(* non-vacuity of C05_rounded_panic_classes: all four witnesses meet its
-   hypotheses, panic under rounding, and fall in four different classes *)
+(* non-vacuity of C05_rounded_panic_classes: the three witnesses meet its
+   hypotheses, panic under rounding, and fall in three different classes *)
 Example C05_rounded_hypotheses_hold :
-  init_ok2 None /\ Forall vtx (w_eff ++ w_over ++ w_split ++ w_under) /\
-  snd (run dec None w_eff) = Some (SPanic (PanicConstraint Site.eff_cent)) /\
+  init_ok2 None /\ Forall vtx (w_over ++ w_split ++ w_under) /\
   snd (run dec None w_over) = Some (SPanic PanicOverflow) /\
   snd (run dec None w_split) = Some (SPanic (PanicAssert Site.set_latest_all)) /\
   snd (run dec None w_under) = Some (SPanic (PanicConstraint Site.pos_mul)).
